@@ -13,11 +13,11 @@ CHECKS = {
         text="For each captured instance: every supply kind x month bucket +5 % of monthly need, each retail waste -5 points, feed/biofuel charge +1 % per bucket, common scale x0.5/x3: percent fed must not decrease / not increase / stay equal (1e-5 relative). Exact mathematical consequences of a correct formulation, checked on every enumerated instance rather than one sweep.",
         note=TRUST + "; an infeasible perturbed programme has no value and is counted, not judged"),
     "C14": dict(engine="histories", design_ref="3/C14",
-        technique="sequences(d): every ordered sequence (d<=2 quick, d<=3 thorough, repeats allowed) over a pool of 8 runs differing in every process-global the code touches (two of them the same country with numeric overrides), each history in one fresh process; every subset (size <=2 quick, all thorough) of 5 countries in ONE multi-country call sharing one option dictionary; differential oracle: bit-for-bit equality with the run alone / the single-country call; deviation histories: the base run of a country after the same country was run with each single-family option deviation (52), one fresh process each",
+        technique="sequences(d): every ordered sequence (d<=2 quick, d<=3 thorough, repeats allowed) over a pool of 8 runs differing in every process-global the code touches (two of them the same country with numeric overrides), each history in one fresh process; every subset (size <=2 quick, all thorough) of 5 countries in ONE multi-country call sharing one option dictionary; differential oracle: bit-for-bit equality with the run alone / the single-country call; deviation histories: the base run of a country after the same country was run with each single-family option deviation (52), one fresh process each (incl. every column family of the country table halved through the custom-parameter mechanism); the pool includes a run on the rare abandoned-round-2 path and the same country under a feed-charging variant",
         text="Result digest (headline, every monthly series, herd dictionaries) of each run at the end of every history equals the digest of the same run alone in a fresh process, also repeated and under other PYTHONHASHSEED values; caller's option dictionaries unmodified; process-global settings fingerprinted after each run.",
         note=TRUST + "; results are bit-for-bit reproducible on the unchanged tree (measured)"),
     "C15": dict(engine="aggregate", design_ref="3/C15",
-        technique="full product of selection patterns (absent / named / '!'-named per country over a 4-country universe: 81 lists) x 5 fraction tables (two with countries whose run reports failure) through the real run_model_no_trade with the per-country step replaced by a stand-in; conformance of the stand-in on real unstubbed runs; every stubbed selection is run twice with the same list object",
+        technique="full product of selection patterns (absent / named / '!'-named per country over a 4-country universe: 81 lists) x 5 fraction tables (two with countries whose run reports failure) through the real run_model_no_trade with the per-country step replaced by a stand-in; conformance of the stand-in on real unstubbed runs; every stubbed selection is run twice with the same list object; lists naming a country more than once",
         text="Aggregate == sum(pop x min(1,f)) / sum(pop) over exactly the selected rows, within [0,1]; exclusion lists run all other rows, inclusion and mixed lists only the named ones; every selected country once in the results.",
         note=TRUST + "; the stand-in replaces only run_optimizer_for_country"),
     "C17": dict(engine="imports", design_ref="3/C17",
@@ -25,7 +25,7 @@ CHECKS = {
         text="Regenerated processed tables and the combined table are byte-identical to the shipped ones; 164 x 211 cells satisfy completeness/seasonality/fraction/reduction/sign rules; weighted_average_percentages over every vector of length <= 3/4 from 9 values x every quarter-grid weight vector returns the renormalised mean of the valid inputs or the sentinel iff none carries weight.",
         note=TRUST + "; raw data files are the given input"),
     "C01": dict(engine="pipeline", design_ref="3/C01",
-        technique="bounded exhaustive enumeration of configurations (presets x all countries; every single option deviation; thorough: every pair) through the real three-round run, plus the full product of tiny 3-month (thorough: 3- and 5-month) instances on the real Optimizer; ledger audit of every solved allocation, written from the supplies, on every (round, month)",
+        technique="bounded exhaustive enumeration of configurations (presets x all countries; every single option deviation; thorough: every pair) through the real three-round run, plus the full product of tiny 3-month (thorough: 3- and 5-month) instances on the real Optimizer; ledger audit of every solved allocation, written from the supplies, on every (round, month); the deviation layer runs as one chain per (country, preset) in one process (default run, then every single deviation), so histories of one country across scenarios are explored too, with prefix replay; quick tier: deviation layer on one country per data-shape class (8 countries) + fixed representatives of rare controller paths",
         text="Every linear programme the model builds inside the enumerated configuration space is audited after its last solve: non-negativity, stored food / crops / meat cumulative balances, monthly SCP and sugar caps, the seaweed growth-and-harvest recurrence with density and area bounds, feed/biofuel totals vs the charged series or ceilings, feed never rising in the feed round. The audit is derived from what physically exists each month, not from the model's own constraint objects, so a missing or too-weak balance shows.",
         note=TRUST + "; tolerances 1e-5 relative + 1e-6 absolute on cumulative clauses (CBC primal tolerance 1e-7 per value), 1e-4 absolute on the seaweed recurrence"),
     "C02": dict(engine="pipeline", design_ref="3/C02",
@@ -37,7 +37,7 @@ CHECKS = {
         text="For every enumerated run: final < T => essentially no feed/biofuel from human-edible food in any month and final >= no-feed round; no-feed round >= T => final >= T; in every round and month feed and biofuel stay within the independently recomputed demand schedule and are zero after the shut-off month.",
         note=TRUST + "; 0.1 percent-fed-equivalent is the maintainers' own 'essentially zero'; genuine violations by the recorded worst-month-cap mechanism are listed in known_findings.json"),
     "C04": dict(engine="pipeline", design_ref="3/C04",
-        technique="same enumeration; per (round, month) comparison of headline, per-food breakdown, captured allocation and the CSV written to disk",
+        technique="same enumeration; per (round, month) comparison of headline, per-food breakdown, captured allocation and the CSV written to disk; the percent-fed series of every food against the breakdown",
         text="Headline == worst month of the summed per-food series; every series == allocation x unit factor; headline within 0.01 % of the first-stage optimum (tie-break solves never degrade it); saved table == returned numbers; crop split adds up.",
         note=TRUST + "; 1e-6 percentage points absolute allowance on a near-zero optimum (solver primal tolerance)"),
     "C05": dict(engine="pipeline", design_ref="3/C05",
@@ -71,22 +71,22 @@ CHECKS = {
         note=TRUST + "; the constants dictionary produced by the option dispatcher is treated as input (C13 checks the dispatcher)"),
     "C09": dict(
         engine="supplies", design_ref="3/C09",
-        technique="same enumeration as C08 restricted to crop/greenhouse families + differential pairs (relocated vs not, expanded vs not) on every enumerated country/horizon/climate; scaled-baseline (x1e-3) no-quantisation check",
+        technique="same enumeration as C08 restricted to crop/greenhouse families + differential pairs (relocated vs not, expanded vs not) on every enumerated country/horizon/climate; scaled-baseline (x1e-3) no-quantisation check; the greenhouse share handed over in several element types (float64, integer zeros, int8, float32)",
         text="Outdoor output == grown x (1 - greenhouse share) x (1 - waste) for every month; greenhouse area schedule (zero until delay+5, monotone, capped); relocation/expansion never lower any month; no rounding/truncation (baseline x 1e-3 scales every month).",
         note=TRUST),
     "C10": dict(
         engine="units", design_ref="3/C10",
-        technique="full product over every source unit triple x every target base triple on the real Food.in_units, against an independently derived factor table and the algebraic laws (round trip, path independence, form/shape preservation, anchors); every ordered sequence of 2 (thorough 3) assignments of the nutrition settings from a 2x2x2x2 menu on the one shared conversions object, all 180 base conversions + anchors after every assignment",
+        technique="full product over every source unit triple x every target base triple on the real Food.in_units, against an independently derived factor table and the algebraic laws (round trip, path independence, form/shape preservation, anchors); every ordered sequence of 2 (thorough 3) assignments of the nutrition settings from a 2x2x2x2 menu on the one shared conversions object, all 180 base conversions + anchors after every assignment; totals and single months derived from a series converted like the same quantity written down directly",
         text="Exhaustive over the 15 x 18 x 18 unit names (form-consistent triples; mixed-form triples of the default bases), scalar and 1-/3-month series, all 180 target base triples, 1 (quick) or 4 (thorough) population/requirement settings: every conversion factor is compared with the factor that follows from the meaning of the unit names; round trips, conversion through an intermediate unit, label form and shape, and the three anchor identities are checked.",
         note=TRUST + "; 30-day month and 4e6 kcal per dry caloric ton are documented constants"),
     "C11": dict(
         engine="food-ops", design_ref="3/C11",
-        technique="breadth-first explicit-state exploration of operation sequences on real Food objects (exact canonical state, deduplicated) with a reference value type run in lock-step; full product of constructor argument kinds; full product of predicate operands under the four inclusion-flag settings",
+        technique="breadth-first explicit-state exploration of operation sequences on real Food objects (exact canonical state, deduplicated) with a reference value type run in lock-step; full product of constructor argument kinds; full product of predicate operands under the four inclusion-flag settings; seed families that share the calorie label but differ in fat/protein label; constructor labels in all 8 suffix mixtures; numpy-integer and mixed-target operations in the alphabet",
         text="All operation sequences up to depth 1 (all seeds) / 2 (8 seeds) quick, depth 2 complete + depth-3 unary chains thorough, over 22 unary and 5 binary operations with every reached state as partner; after every step labels, label list, form-vs-shape, values, operand immutability and must-refuse are checked against the reference. 16 predicates are compared between single values and one-month series for every operand pair over a 3/4-value menu under all four fat/protein settings.",
         note=TRUST + "; label conventions are those of the Food class docstring; operations the docstrings declare unsupported may refuse"),
     "C13": dict(
         engine="options", design_ref="3/C13",
-        technique="explicit-state exploration of the exactly-once flag machine on a real Scenarios object (every reachable flag set x every setter, found by introspection) + deviation-bounded (k<=1) enumeration of the option dispatcher against a reference table + differential check of every head-count override at the herd builder",
+        technique="explicit-state exploration of the exactly-once flag machine on a real Scenarios object (every reachable flag set x every setter, found by introspection) + deviation-bounded (k<=1) enumeration of the option dispatcher against a reference table + differential check of every head-count override at the herd builder; head-count overrides one at a time, in every ordered pair over a 6-species menu, and observed at every herd-model evaluation of a complete three-round run",
         text="(i) from 2 country presets x 6-16 countries and 2 global presets, every family x every documented value, an unknown value and the key missing: accepted iff documented, caller's dictionary untouched, constants equal the reference table written from README/docstrings, numeric overrides change exactly the named constant; (ii) quick: every ordered pair of the 60 setters from each scale root, thorough: all 2^15 flag sets x 60 setters from both roots (3.9M transitions): accepted iff family unset and scale fits, exactly its flag is set, a rejection changes nothing; (iii) every species head override x countries observed at the table reaching the herd builder.",
         note=TRUST + "; reference table of option values in mc/props/c13.py (EXPECT) transcribed from scenarios/README.md and setter docstrings"),
 }
